@@ -663,6 +663,34 @@ func runC01(c *Ctx) {
 		c.Case("gzip-transparent", L(S("gzsame"), S(sh.kind), Z(int64(sh.n))), c01GzSame(sh.kind, sh.n), true, "op:gzsame", "gz:"+sh.kind)
 	}
 
+	// 1b''. locations with MANY inlined lines (1, 15..18, 31..33, 40, 200) followed by other locations: the
+	// decoder's scratch space for lines is shared between the locations of one message
+	for _, nl := range []int{1, 15, 16, 17, 18, 31, 32, 33, 40, 200} {
+		p := &profile.Profile{SampleType: []*profile.ValueType{{Type: "samples", Unit: "count"}}}
+		m := &profile.Mapping{ID: 1, Start: 0x1000, Limit: 0x9000, File: "/bin/deep", HasFunctions: true, HasInlineFrames: true}
+		p.Mapping = []*profile.Mapping{m}
+		mkf := func(name string) *profile.Function {
+			f := &profile.Function{ID: uint64(len(p.Function) + 1), Name: name, SystemName: name, Filename: name + ".go", StartLine: int64(len(p.Function) + 1)}
+			p.Function = append(p.Function, f)
+			return f
+		}
+		mkl := func(n int, tag string) *profile.Location {
+			l := &profile.Location{ID: uint64(len(p.Location) + 1), Mapping: m, Address: 0x1000 + uint64(len(p.Location))*64}
+			for k := 0; k < n; k++ {
+				l.Line = append(l.Line, profile.Line{Function: mkf(fmt.Sprintf("%s%d", tag, k)), Line: int64(10 + k), Column: int64(k % 3)})
+			}
+			p.Location = append(p.Location, l)
+			return l
+		}
+		a, b2, d := mkl(2, "pre"), mkl(nl, "deep"), mkl(1, "post")
+		e := mkl(3, "tail")
+		p.Sample = []*profile.Sample{{Location: []*profile.Location{d, b2, a}, Value: []int64{int64(nl)}}, {Location: []*profile.Location{e, b2}, Value: []int64{7}}}
+		rtCase("deep-inline", p, true)
+		if bs, pan := c01Serialize(p); !pan {
+			c.Case("deep-inline", L(S("parse"), S(string(bs))), c01ParseObs(bs), true, "op:parse", fmt.Sprintf("inline-lines:%d", nl))
+		}
+	}
+
 	// 1c. pprof -proto through the driver, re-read: every sample keeps its frames (names, files, lines,
 	// columns, addresses), values and labels
 	for i := 0; i < c.Budget(120, 4000); i++ {
